@@ -123,9 +123,14 @@ def probe_params(U, per_span=None):
     return sorted(set(out))
 
 
-def outside_params(U):
+def outside_params(U, exact=False):
+    """parameters outside [umin, umax]: far away and as close as the number type resolves (1e-12 is more than 4 ulp
+    of any knot in the bounds of DESIGN section 4; the 1e-30 offsets only exist in exact arithmetic)"""
     a, b = U[0], U[-1]
-    return [a - F(1, 1000), b + F(1, 1000), a - 1, b + 1, F(10**6), F(-(10**6))]
+    near = [b + F(1, 10**12), a - F(1, 10**12), b + F(1, 10**9), a - F(1, 10**7)]
+    if exact:
+        near += [b + F(1, 10**30), a - F(1, 10**30)]
+    return [a - F(1, 1000), b + F(1, 1000)] + near + [a - 1, b + 1, F(10**6), F(-(10**6))]
 
 
 def numtype(rng, U=None, allow=("frac", "frac", "float", "npfloat", "int")):
